@@ -106,7 +106,7 @@ func parseLine(l string) (op, bool) {
 	if len(f) == 0 {
 		return op{}, false
 	}
-	want := map[string]int{"EP": 3, "EC": 2, "EV": 6, "EE": 1, "X": 4, "M": 16, "R": 0, "K": 2}
+	want := map[string]int{"EP": 3, "EC": 2, "EV": 6, "EE": 1, "X": 4, "M": 16, "R": 0, "K": 2, "EB": 1, "U": 1, "Q": 4, "F": 5, "XL": 4}
 	n, ok := want[f[0]]
 	if !ok || len(f)-1 != n {
 		return op{}, false
@@ -267,7 +267,7 @@ func (n *node) stateString() string {
 			return "-"
 		}
 		if !r.SigOK {
-			return "badsig"
+			return "-" // a record this node did not write: NewVoteDB ignores it
 		}
 		return fmt.Sprintf("%s.%d", r.Round, r.RoundIndex)
 	}
@@ -361,9 +361,28 @@ func (n *node) exec(o op) (resp string, sends []sendRec, notPersisted []string, 
 	case "K":
 		n.d.CrashAtPut(int(u(o.a[0])), u(o.a[1]) == 1)
 		return "ok", nil, nil, ""
+	case "EB":
+		n.d.Env.EnableBls = u(o.a[0]) == 1
+		return "ok", nil, nil, ""
+	case "Q":
+		if n.d.StartVoteQuery(bigOf(o.a[0]), uint32(u(o.a[1])), uint32(u(o.a[2])), uint32(u(o.a[3]))) {
+			return "q=1", nil, nil, ""
+		}
+		return "q=0", nil, nil, ""
+	case "F":
+		// only into a slot that holds nothing: the database keeps every record this node wrote (assumption of the property)
+		name := map[string]string{"2/1": "prevote", "3/1": "precommit", "5/1": "certificate", "4/1": "next1", "4/2": "next2"}[o.a[0]+"/"+o.a[1]]
+		if name != "" && n.d.Records()[name] == nil {
+			n.d.WriteForeignRecord(ucon.VoteType(u(o.a[0])), uint8(u(o.a[1])), bigOf(o.a[2]), uint32(u(o.a[3])), int(u(o.a[4])))
+		}
+		return "ok", nil, nil, ""
+	case "U":
+		st = n.d.RemoveMarkedBlock(hashOf(o.a[0]))
 	case "R":
 		n.d.Restart()
 		return "nil||" + n.stateString(), nil, nil, ""
+	case "XL":
+		st = n.d.ContextViaEventLoop(bigOf(o.a[0]), uint32(u(o.a[1])), uint32(u(o.a[2])), u(o.a[3]) == 1)
 	case "X":
 		st = n.d.Context(bigOf(o.a[0]), uint32(u(o.a[1])), uint32(u(o.a[2])), u(o.a[3]) == 1)
 	case "M":
@@ -375,7 +394,10 @@ func (n *node) exec(o op) (resp string, sends []sendRec, notPersisted []string, 
 			msg.ClaimedBy = keys[(sender+1)%len(keys)]
 		}
 		n.stakeVt, n.stakeT, n.stakeErr, n.sortErr = uint32(u(o.a[9])), u(o.a[10]), u(o.a[11]) == 1, u(o.a[12]) == 1
+		bls := n.d.Env.EnableBls // the BLS switch applies to delivered contexts only (the driver's validator set is empty)
+		n.d.Env.EnableBls = false
 		st = n.d.Vote(msg)
+		n.d.Env.EnableBls = bls
 	default:
 		return "bad-op", nil, nil, ""
 	}
@@ -502,7 +524,7 @@ func runCase(drv *vh.Driver, ops []op) (v verdict) {
 		if strings.HasPrefix(resp, "crashed") || strings.HasPrefix(resp, "panic") || o.tag == "R" {
 			v.crashes++
 		}
-		if o.tag == "X" {
+		if o.tag == "X" || o.tag == "XL" {
 			c := o.a[0] + "/" + o.a[1]
 			if lastCtx != "" && c != lastCtx {
 				idxChange = true
@@ -588,7 +610,11 @@ func (g *gen) ctx(step uint64) {
 	if g.cert {
 		c = 1
 	}
-	g.add("X", g.round.String(), dec(g.index), dec(step), dec(c))
+	tag := "X"
+	if g.r.Chance(3) {
+		tag = "XL" // through the Voter's own event loop
+	}
+	g.add(tag, g.round.String(), dec(g.index), dec(step), dec(c))
 }
 
 func (g *gen) voteMsg(kind uint64, mal bool) {
@@ -654,6 +680,35 @@ func min64(a, b uint64) uint64 {
 	return b
 }
 
+// genCertDrop: in a certificate round the certificate quorum for a block is latched, one of its voters equivocates
+// (its weight is removed), then precommit quorums arrive: the own certificate vote is cast, and commit finds the
+// certificate votes below the latched quorum.
+func genCertDrop(r *vh.RNG) []op {
+	g := &gen{r: r, round: big.NewInt(int64(32768 * r.Range(1, 2))), index: uint64(r.Range(1, 3)), hashes: []uint64{1, 2}, T: 12, cert: true}
+	h, h2 := dec(uint64(r.Range(1, 3))), dec(uint64(r.Range(4, 6)))
+	rs, is := g.round.String(), dec(g.index)
+	vote := func(kind, hash string, sender int, w int) {
+		g.add("M", kind, rs, is, hash, "1", dec(uint64(sender)), "1", dec(uint64(w)), "2", "1", "12", "0", "0", "0")
+	}
+	g.add("EV", "5", "1", "1", "1", "12") // own certificate seat: 1 sub-user, quorum far away
+	g.add("EV", "3", dec(uint64(r.Intn(2))), "1", "1", "12")
+	g.ctx(4)
+	vote("5", h, 1, r.Range(8, 11))
+	vote("5", h2, 1, 3) // equivocation: sender 1 loses its weight
+	vote("3", h, 2, r.Range(9, 12))
+	vote("3", h, 3, r.Range(1, 3))
+	if r.Bool() {
+		vote("5", h, 4, r.Range(8, 11)) // the quorum comes back: now the commit goes through
+	}
+	g.ctx(5)
+	if r.Bool() {
+		g.add("R")
+		g.ctx(4)
+		vote("3", h2, 5, 12)
+	}
+	return g.ops
+}
+
 // genHistory: a mostly plausible consensus run (step timers in order, votes for a few hashes that reach quorums,
 // sometimes for conflicting hashes) perturbed by crashes at and between calls, lowered / repeated / jumped indices
 // and rounds, changing proposals and sortition, and a malformed stream.
@@ -706,7 +761,20 @@ func genHistory(r *vh.RNG, maxOps int, malformed bool) []op {
 			if r.Chance(10) {
 				g.add("K", dec(uint64(r.Range(1, 3))), dec(uint64(r.Intn(2))))
 			}
+			blsCtx := r.Chance(5)
+			if blsCtx {
+				g.add("EB", "1")
+			}
 			g.ctx(st)
+			if blsCtx && r.Chance(80) {
+				g.add("EB", "0")
+			}
+			if st >= 4 && r.Chance(10) {
+				g.add("U", g.hash()) // the insert of a committed block failed
+			}
+			if r.Chance(6) {
+				g.add("Q", g.round.String(), dec(g.index), dec(uint64(r.Range(0, 6))), dec(uint64(r.Range(0, 2))))
+			}
 			nv := r.Range(0, 5)
 			for k := 0; k < nv && len(g.ops) < maxOps; k++ {
 				kind := uint64([]int{2, 2, 3, 3, 4, 5}[r.Intn(6)])
@@ -742,6 +810,17 @@ func genHistory(r *vh.RNG, maxOps int, malformed bool) []op {
 				g.add("EC", g.hash(), dec(uint64(r.Intn(2))))
 			case 4:
 				g.add("EE", dec(uint64(r.Intn(2))))
+			case 5:
+				if r.Chance(40) { // a record of foreign origin in a slot this node has not used yet, then a restart
+					k := []string{"2", "3", "5", "4", "4"}[r.Intn(5)]
+					idx := "1"
+					if k == "4" && r.Bool() {
+						idx = "2"
+					}
+					g.add("F", k, idx, new(big.Int).Add(g.round, big.NewInt(int64(r.Range(0, 2)))).String(), dec(g.index+uint64(r.Intn(3))), dec(uint64(r.Intn(3))))
+					g.add("R")
+					g.ctx(st)
+				}
 			}
 		}
 		// next context
@@ -768,6 +847,13 @@ func genHistory(r *vh.RNG, maxOps int, malformed bool) []op {
 				g.index = uint64(r.Range(1, 3))
 			}
 		case 6: // same context again
+		case 7: // a round that aliases the current one in the 64-bit wrapper key
+			two64 := new(big.Int).Lsh(big.NewInt(1), 64)
+			if g.round.Cmp(two64) >= 0 {
+				g.round = new(big.Int).Sub(g.round, two64)
+			} else {
+				g.round = new(big.Int).Add(g.round, two64)
+			}
 		default:
 			g.index++
 		}
@@ -947,6 +1033,10 @@ func run(c *vh.Ctx) error {
 		malformed := ci%4 == 3
 		maxOps := r.Range(8, 45)
 		ops := genHistory(r, maxOps, malformed)
+		if ci%50 == 49 {
+			ops = genCertDrop(r)
+			res.Dist("stream-scripted-cert-quorum-drop")
+		}
 		v := runCase(drv, ops)
 		res.Count(strings.Join(lines(ops), "\n"), v.nontrivial)
 		res.TracesVsImpl++
